@@ -280,6 +280,8 @@ impl<T> RcBox<T> {
     /// Callers must ensure this `RcBox` is not dead.
     #[inline]
     pub(crate) unsafe fn links(&self) -> &RefCell<Links<T>> {
+        #[cfg(cactusref_verif)]
+        crate::verif::emit(crate::verif::LINKS, self as *const Self as usize);
         let links = &self.links;
         // SAFETY: because callers have ensured the `RcBox` is not dead, `links`
         // has not yet been deallocated and the `MaybeUninit` is inhabited.
@@ -328,6 +330,8 @@ impl<T> Rc<T> {
     pub(crate) fn inner(&self) -> &RcBox<T> {
         // This unsafety is ok because while this Rc is alive we're guaranteed
         // that the inner pointer is valid.
+        #[cfg(cactusref_verif)]
+        crate::verif::emit(crate::verif::ACCESS, self.ptr.as_ptr() as usize);
         unsafe { self.ptr.as_ref() }
     }
 
@@ -437,6 +441,8 @@ impl<T> Rc<T> {
                 // its link table.
                 crate::drop::release_links(&this);
                 let val = ptr::read(&*this); // copy the contained object
+                #[cfg(cactusref_verif)]
+                crate::verif::emit(crate::verif::VALUE_MOVED, this.ptr.as_ptr() as usize);
 
                 // Indicate to Weaks that they can't be promoted by decrementing
                 // the strong count, and then remove the implicit "strong weak"
@@ -899,6 +905,8 @@ impl<T: Clone> Rc<T> {
             unsafe {
                 let data: &mut MaybeUninit<T> = mem::transmute(Rc::get_mut_unchecked(&mut rc));
                 data.as_mut_ptr().copy_from_nonoverlapping(&**this, 1);
+                #[cfg(cactusref_verif)]
+                crate::verif::emit(crate::verif::VALUE_MOVED, this.ptr.as_ptr() as usize);
 
                 // The old allocation is given up without running `Rc::drop`:
                 // unlink it from its adoption peers and destroy its link
@@ -1022,6 +1030,43 @@ impl<T> Rc<T> {
             box_free(box_unique, alloc);
 
             Self::from_ptr(ptr)
+        }
+    }
+}
+
+#[cfg(cactusref_verif)]
+#[allow(missing_docs)]
+#[allow(clippy::missing_safety_doc)]
+impl<T> Rc<T> {
+    /// Verification hook: address of the `RcBox` behind a value pointer.
+    #[doc(hidden)]
+    pub unsafe fn __verif_box_addr(ptr: *const T) -> usize {
+        (ptr as *const u8).offset(-data_offset(ptr)) as usize
+    }
+
+    /// Verification hook: raw `(strong, weak)` counters of a box that has not
+    /// been released.
+    #[doc(hidden)]
+    pub unsafe fn __verif_counts(ptr: *const T) -> (usize, usize) {
+        let rcbox = Self::__verif_box_addr(ptr) as *const RcBox<T>;
+        ((*rcbox).strong.get(), (*rcbox).weak.get())
+    }
+
+    /// Verification hook: read-only snapshot of the link table of a live box
+    /// as `(value pointer of the linked box, kind, count)` with kind
+    /// 0 = Forward, 1 = Backward, 2 = Loopback.
+    #[doc(hidden)]
+    pub unsafe fn __verif_links(ptr: *const T, out: &mut alloc::vec::Vec<(*const T, u8, usize)>) {
+        let rcbox = Self::__verif_box_addr(ptr) as *const RcBox<T>;
+        let links = &*(ptr::addr_of!((*rcbox).links).cast::<RefCell<Links<T>>>());
+        for (link, &count) in links.borrow().iter() {
+            let kind = match link.kind() {
+                crate::link::Kind::Forward => 0,
+                crate::link::Kind::Backward => 1,
+                crate::link::Kind::Loopback => 2,
+            };
+            let value = ptr::addr_of!((*link.as_ptr()).value).cast::<T>();
+            out.push((value, kind, count));
         }
     }
 }
@@ -1613,6 +1658,8 @@ impl<T> Weak<T> {
             // We are careful to *not* create a reference covering the "data" field, as
             // the field may be mutated concurrently (for example, if the last `Rc`
             // is dropped, the data field will be dropped in-place).
+            #[cfg(cactusref_verif)]
+            crate::verif::emit(crate::verif::ACCESS, self.ptr.as_ptr() as usize);
             Some(unsafe {
                 let ptr = self.ptr.as_ptr();
                 WeakInner {
